@@ -104,6 +104,17 @@ func (s *SessionStore) setSessionCookie(rw http.ResponseWriter, req *http.Reques
 	if err != nil {
 		return err
 	}
+	// Remove cookies left over from an earlier save that this save does not
+	// overwrite, otherwise they would be picked up by loadCookie.
+	current := make(map[string]struct{}, len(cookies))
+	for _, c := range cookies {
+		current[c.Name] = struct{}{}
+	}
+	for _, name := range s.sessionCookieNames(req.Cookies()) {
+		if _, ok := current[name]; !ok {
+			http.SetCookie(rw, s.makeCookie(req, name, "", time.Hour*-1))
+		}
+	}
 	for _, c := range cookies {
 		http.SetCookie(rw, c)
 	}
